@@ -40,7 +40,7 @@ Qed.
 Definition ok_vop (w : world) (o : vop) : Prop :=
   match o with
   | VBase o' => ok_op w o'
-  | VItems i | VValues i => (i < length (snd w))%nat
+  | VItems i | VValues i | VHeader i => (i < length (snd w))%nat
   | VDup i j => (i < length (snd w))%nat /\ (j < length (snd w))%nat /\
                 closed (hnth (snd w) i) = true /\ closed (hnth (snd w) j) = true
   end.
@@ -51,13 +51,14 @@ Definition vstep_spec (rs : list kv) (w : world) (o : vop) (r : vres) (rs' : lis
   | VItems i => rs' = rs /\ if closed (hnth (snd w) i) then r = VRFail \/ r = VRItems [] else r = VRItems rs
   | VValues i => rs' = rs /\ if closed (hnth (snd w) i) then r = VRFail \/ r = VRVals [] else r = VRVals (map snd rs)
   | VDup _ _ => rs' = rs /\ r = VR ROk
+  | VHeader _ => rs' = rs /\ r = (let '(a, b, c) := read_header (fst w) in VRHdr a b c)
   end.
 
 Theorem vstep_refines H rs w o :
   Inv H rs w -> ok_vop w o ->
   exists rs', Inv H rs' (fst (vstep w o)) /\ vstep_spec rs w o (snd (vstep w o)) rs'.
 Proof.
-  intros I Hok. destruct o as [o'|i|i|i j]; cbn [vstep ok_vop vstep_spec] in *.
+  intros I Hok. destruct o as [o'|i|i|i j|i]; cbn [vstep ok_vop vstep_spec] in *; [| | | |exists rs; simpl; split; [exact I|split; reflexivity]].
   - destruct (step_refines H rs w o' I Hok) as [rs' [I' [S' _]]]. exists rs'.
     destruct (step w o') as [w' r'] eqn:E. simpl in *. split; [exact I'|]. exists r'. split; [reflexivity|exact S'].
   - exists rs. simpl. split; [exact I|]. split; [reflexivity|]. fold (hnth (snd w) i).
@@ -112,4 +113,32 @@ Proof.
     exists rs2. simpl. destruct (vstep w o) as [w1 r1] eqn:Es. simpl in *.
     destruct (vrun w1 ops) as [rs_out wf] eqn:Er. simpl in *.
     split; [exact I2|]. exists rs1. split; assumption.
+Qed.
+
+(* the header fields a handle reports are the ones the file was created with: whatever was appended since *)
+Theorem read_header_spec h1 h2 b0 rest :
+  length h1 = 16%nat -> len h2 < 65536 -> len b0 < 4294967296 ->
+  read_header (mk_header h1 h2 b0 ++ rest) = (h1, h2, b0).
+Proof.
+  intros L1 L2 L3. unfold read_header, mk_header.
+  assert (S16 : forall x, skipn 16 (h1 ++ x) = x).
+  { intros x. replace 16%nat with (length h1 + 0)%nat by lia. rewrite skipn_app, Nat.add_0_r, skipn_all, Nat.sub_diag. reflexivity. }
+  rewrite <- !app_assoc. rewrite S16. cbn [app be32].
+  assert (F16 : forall x, firstn 16 (h1 ++ x) = h1).
+  { intros x. rewrite <- L1. rewrite firstn_app, Nat.sub_diag, firstn_all. simpl. apply app_nil_r. }
+  rewrite F16.
+  assert (E2 : len h2 / 256 mod 256 * 256 + len h2 mod 256 = len h2) by lia.
+  assert (E0 : rd32 (len b0 / 16777216 mod 256) (len b0 / 65536 mod 256) (len b0 / 256 mod 256) (len b0 mod 256) = len b0)
+    by (unfold rd32; lia).
+  rewrite E2, E0.
+  set (pre := h1 ++ [len h2 / 256 mod 256; len h2 mod 256] ++ [len b0 / 16777216 mod 256; len b0 / 65536 mod 256; len b0 / 256 mod 256; len b0 mod 256] ++ repeat 0 10).
+  assert (Lp : len pre = 32).
+  { unfold pre, len. rewrite !app_length, L1, repeat_length. reflexivity. }
+  assert (Ef : h1 ++ len h2 / 256 mod 256 :: len h2 mod 256 :: len b0 / 16777216 mod 256 :: len b0 / 65536 mod 256 ::
+               len b0 / 256 mod 256 :: len b0 mod 256 :: repeat 0 10 ++ h2 ++ b0 ++ rest = pre ++ h2 ++ b0 ++ rest).
+  { unfold pre. rewrite <- !app_assoc. reflexivity. }
+  rewrite Ef. f_equal; [f_equal|].
+  - rewrite <- Lp. apply sub_app_mid.
+  - replace (pre ++ h2 ++ b0 ++ rest) with ((pre ++ h2) ++ b0 ++ rest) by (rewrite <- app_assoc; reflexivity).
+    replace (32 + len h2) with (len (pre ++ h2)) by (rewrite len_app, Lp; reflexivity). apply sub_app_mid.
 Qed.
